@@ -837,8 +837,8 @@ class System:
         cycles = 24 * 3600.0 / tot_time
         return (self._g.attrs["phases"][phase] / 3600.0) * pwr * cycles
 
-    def _find_domain(self, n, domain, v):
-        """Find voltage domain"""
+    def _find_domain(self, n, domains, v):
+        """Find voltage domain (domains: node index -> domain of already visited nodes)"""
         if self._g[n]._component_type.name == "SOURCE":
             return self._g[n]._params["name"]
         elif self._g[n]._component_type.name == "PMUX":
@@ -854,7 +854,7 @@ class System:
             for i in an:
                 if self._g.in_degree(i) == 0:
                     return self._g[i]._params["name"]
-        return domain
+        return domains[self._parents[n][0]]
 
     def solve(
         self,
@@ -932,12 +932,14 @@ class System:
             eff, warn, vsi, iso, vso, isi = [], [], [], [], [], []
             domain, phases, ener, dname, group, rail = [], [], [], "none", [], []
             sources, dwarns, rail_in, pstate = {}, {}, [], {}
+            ndomain = {}
             show_trise = False
             for n in self._topo_nodes:  # [vi, vo, ii, io]
                 phase_config = self._phase_lkup[n]
                 name = self._g[n]._params["name"]
                 names += [name]
-                dname = self._find_domain(n, dname, v)
+                dname = self._find_domain(n, ndomain, v)
+                ndomain[n] = dname
                 domain += [dname]
                 phases += [ph]
                 group += [self._g.attrs["groups"][name]]
@@ -1481,7 +1483,7 @@ class System:
             return None
         names, typ, phase = [], [], []
         rs, ii, pwr = [], [], []
-        domain, dname = [], "none"
+        domain, dname, ndomain = [], "none", {}
         phase_names = list(self._g.attrs["phases"].keys())
         self._set_phase_lkup()
         src_cnt = 0
@@ -1490,6 +1492,9 @@ class System:
             if tname == "SOURCE":
                 dname = self._g[n]._params["name"]
                 src_cnt += 1
+            else:
+                dname = ndomain[self._parents[n][0]]
+            ndomain[n] = dname
             ph_names = []
             if tname == "SLOSS":
                 ph_names += ["N/A"]
